@@ -537,12 +537,14 @@ class HyperscanTokenizer(Tokenizer):
             if start in byte_to_str_offset and end in byte_to_str_offset:
                 start = byte_to_str_offset[start]
                 end = byte_to_str_offset[end]
-                m = extractor.compiled_regex.match(text[start:end])
-                if m is None:
+                # Match against the full text, so that "^", "$" and the
+                # boundary characters see the real context of the match
+                m = extractor.compiled_regex.match(text, start)
+                if m is None or m.end() != end:
                     # hyperscan's byte-based character classes can accept
                     # text that python's unicode-aware ones reject
                     continue
-                yield extractor.get_token(m, offset=start)
+                yield extractor.get_token(m)
 
     @property
     def hyperscan_db(self):
